@@ -20,7 +20,7 @@ root wins is a parameter `pick` of the model; the correctness theorem
 -/
 import AutomataVerif.Model.Basic
 
-namespace AV.HK
+namespace AV.HKG
 
 /-- Union–find as a root map: `(x, r)` says that the class of `x` is named `r`;
 elements without an entry are their own root. -/
@@ -76,4 +76,4 @@ def run (step : S → α → S) (isFinal : S → Bool) (syms : List α) (pick : 
   let u : UF S := if a = b then ⟨[]⟩ else UF.union pick ⟨[]⟩ a b
   loop step isFinal syms pick fuel u [(a, b)]
 
-end AV.HK
+end AV.HKG
